@@ -293,13 +293,32 @@ def r05j(ctx, rep, rule="R05j"):
             rep.ok(rule, key, "%s builds its result without mutators" % name)
 
 
+def _vpush_mutates(facts):
+    """does the VPushAcc arm of run_one add to an existing vector in place (Vector::push / put on the popped operand)?"""
+    ro = facts.fns.get(RUN_ONE)
+    if ro is None:
+        return True
+    sws = [sw for sw in disc_switches(facts, ro, "marwood::vm::opcode::OpCode") if "VPushAcc" in sw["arms"]]
+    if not sws:
+        return True
+    reg = arm_region(ro, sws[0], "VPushAcc")
+    if not reg:
+        return True
+    for bb, t in ro.calls():
+        if bb in reg and (callee(t) or "") in ("marwood::vm::vector::Vector::push", "marwood::vm::vector::Vector::put"):
+            return True
+    return False
+
+
 def r05k(ctx, rep, rule="R05k"):
     """code emitted for a constructor does not mutate a half-built object across an evaluation"""
     facts = ctx["facts"]
     rep.rule(rule, "results are assembled after their parts have been evaluated: where the compiler emits, in one loop, the code that "
              "evaluates the parts of a template and a mutating opcode (VPUSH) that adds each part to the object under "
              "construction, a continuation captured while a part is evaluated holds that object; re-entering it pushes onto "
-             "the result an earlier return already handed out. Lists are built the safe way (all parts on the stack, then CONS).")
+             "the result an earlier return already handed out — unless the opcode's handler leaves the object it is given alone "
+             "and yields a new one per push (checked in the VPushAcc arm of run_one: no Vector::push / put). Lists are built the "
+             "safe way (all parts on the stack, then CONS).")
     n = 0
     for p, f in sorted(facts.fns.items()):
         if not p.startswith(COMPILE) or "{closure" in p:
@@ -313,7 +332,10 @@ def r05k(ctx, rep, rule="R05k"):
                 continue
             n += 1
             key = "%s|%s|vpush-between-evaluations" % (rule, f.short.rsplit("::", 1)[-1])
-            if ev:
+            if ev and not _vpush_mutates(facts):
+                rep.ok(rule, key, "%s emits VPUSH between the evaluations of the elements, but the VPUSH handler builds a new vector "
+                       "for every push and mutates none: the vector a captured continuation holds stays as it was" % f.short, [vp[0]["loc"]])
+            elif ev:
                 rep.fail(rule, key, "%s emits VPUSH inside the loop that also compiles the element expressions: the vector is mutated "
                          "between the evaluations of its elements, so a continuation captured in one element and re-entered after "
                          "the form has returned pushes onto the vector that was already returned" % f.short, [vp[0]["loc"]])
